@@ -38,7 +38,7 @@ import (
 // (counted as "superlinear"), exhausting the true bound = violation, exhausting only the cap =
 // "undecided" (counted, never an alarm).
 const (
-	cQuad   = 400
+	cQuad   = 600
 	linBase = 100_000
 	linPer  = 1_000
 	hardCap = 400_000_000
